@@ -65,7 +65,8 @@ func drawC06(r *Rng, fam string) c06Cfg {
 		c.Purge = r.Chance(15)
 	case "barrier":
 		c.Barrier = Pick(r, "PauseAndWait", "Stop", "WaitAndStop")
-		c.Callers = 1
+		// several callers of the same barrier: each of them must wait for the executing functions
+		c.Callers = Pick(r, 1, 1, 2, 3)
 	}
 	return c
 }
